@@ -371,18 +371,27 @@ where
             .map(|record| SeekFrom::Start(record.offset()))
             .unwrap_or(SeekFrom::End(0));
 
+        // Without unplaced records, there is nothing to read at the end of the stream.
+        let max_record_count = match offset {
+            SeekFrom::Start(_) => usize::MAX,
+            _ => 0,
+        };
+
         self.get_mut().seek(offset)?;
 
-        Ok(self.records(header).filter_map(|result| match result {
-            Ok(record) => {
-                if record.flags().is_unmapped() {
-                    Some(Ok(record))
-                } else {
-                    None
+        Ok(self
+            .records(header)
+            .filter_map(|result| match result {
+                Ok(record) => {
+                    if record.flags().is_unmapped() {
+                        Some(Ok(record))
+                    } else {
+                        None
+                    }
                 }
-            }
-            Err(e) => Some(Err(e)),
-        }))
+                Err(e) => Some(Err(e)),
+            })
+            .take(max_record_count))
     }
 }
 
